@@ -2,7 +2,8 @@
 
 Decided: the running remaining-space account of allocate_buckets, read-only => 0,
 registration/removal pairing of BucketWriters, reserved space subtracted and
-clamped (DESIGN.md section 5, C28)."""
+clamped, nothing that raises in normal operation (timer operations, rmdir of a shared
+directory) between close/abort and the release (DESIGN.md section 5, C28)."""
 from sa.h import *
 
 EXPLANATION = (
@@ -23,11 +24,20 @@ EXPLANATION = (
     "and in every method through which cb reaches ss.bucket_writer_closed, no X.cancel()/reset()/delay() (which raise "
     "AlreadyCalled/AlreadyCancelled then), directly or through a self.helper(), is executed on a path to the release "
     "unless the path passed a true X.active() test, the exception is caught (try/except, suppress) or a finally "
-    "releases. Not decided by (5): other calls that may raise before the release (os.remove/rmdir failures). "
+    "releases. (6) in every BucketWriter method that reaches ss.bucket_writer_closed, an os.rmdir/os.removedirs (direct, "
+    "or inside a self.helper() out of which its OSError escapes) executed before the release is on every path preceded "
+    "by a passed emptiness test of that same directory (not os.listdir(D), len(os.listdir(D)) == 0) or its OSError is "
+    "caught (try/except OSError/EnvironmentError/Exception, suppress) or a finally releases: the incoming directory is "
+    "shared by the shares of a storage index that are uploaded together, so it is normally not empty and an unguarded "
+    "rmdir raises before the release. Not decided by (5)/(6): other calls that may raise before the release "
+    "(os.remove / os.stat / rename / listdir failing because the files were changed from outside; a directory that "
+    "gains an entry between the emptiness test and the rmdir). "
     "Undecided: the numbers reported by statvfs, concurrent processes filling the disk, space used by leases and "
-    "mutable shares.")
+    "mutable shares; that a second writer is never built for an incominghome that is already registered rests on "
+    "the os.path.exists(incominghome) test of allocate_buckets and the assert in ShareFile(create=True), neither of "
+    "which is checked here.")
 TECHNIQUE = ("static analysis: CFG x fact monitor for the space account, must-follow / who-may-write sweeps, "
-             "interprocedural exception-escape analysis from the timer callback to the release")
+             "interprocedural exception-escape analysis from the timer callback / the directory clean-up to the release")
 
 SRV = "storage.server"
 SS = SRV + ":StorageServer"
@@ -63,9 +73,9 @@ TIMER_RAISING_OPS = ("cancel", "reset", "delay")
 CATCHES_ALREADY_CALLED = {"AlreadyCalled", "Exception", "BaseException"}
 
 
-def _handler_catches(h: ast.ExceptHandler) -> bool:
+def _handler_catches(h: ast.ExceptHandler, catches=None) -> bool:
     names = C._handler_names(h.type)
-    return names is None or bool(set(names) & CATCHES_ALREADY_CALLED)
+    return names is None or bool(set(names) & (catches or CATCHES_ALREADY_CALLED))
 
 
 def _parents(fn):
@@ -78,15 +88,17 @@ def _parents(fn):
     return par
 
 
-def _catching_context(fn, par, node_ast):
+def _catching_context(fn, par, node_ast, catches=None):
     """('suppressed', None) when the statement sits in `with suppress(AlreadyCalled..)`, ('handler', H) for the
-    innermost enclosing `try` whose handler H certainly receives AlreadyCalled, else (None, None)."""
+    innermost enclosing `try` whose handler H certainly receives AlreadyCalled (or, when `catches` is given, one of
+    those exception classes), else (None, None)."""
+    catches = catches or CATCHES_ALREADY_CALLED
     cur = node_ast
     while id(cur) in par and cur is not fn.node:
         p, field = par[id(cur)]
         if isinstance(p, ast.Try) and field == "body":
             for h in p.handlers:
-                if _handler_catches(h):
+                if _handler_catches(h, catches):
                     return "handler", h
         if isinstance(p, (ast.With, ast.AsyncWith)) and field == "body":
             for it in p.items:
@@ -95,17 +107,17 @@ def _catching_context(fn, par, node_ast):
                     names = set()
                     for a in e.args:
                         names |= set(C._handler_names(a) or [])
-                    if names & CATCHES_ALREADY_CALLED:
+                    if names & catches:
                         return "suppressed", None
         cur = p
     return None, None
 
 
-def _escape_outcomes(fn, cfg, par, h, is_release):
-    """Where does control go when the statement at CFG node `h` raises AlreadyCalled?  Returns a dict
+def _escape_outcomes(fn, cfg, par, h, is_release, catches=None):
+    """Where does control go when the statement at CFG node `h` raises AlreadyCalled (or `catches`)?  Returns a dict
     outcome -> witness for the outcomes reached WITHOUT leaving a release node first: 'raise' (the exception
     leaves the function) and 'exit' (it is swallowed and the function returns)."""
-    kind, H = _catching_context(fn, par, h.ast)
+    kind, H = _catching_context(fn, par, h.ast, catches)
     if kind == "suppressed":
         # the with-block is left, execution continues after it; the engine has no edge for that, so the
         # statement is simply not treated as raising (the statements after the with are reached normally)
@@ -354,6 +366,170 @@ def check_timer_release(idx, ci, r):
     if not n_relevant:
         raise AnchorVanished("the callback of the BucketWriter timer(s) %s no longer reaches ss.bucket_writer_closed: the "
                              "inactivity timeout this rule follows to the release is gone" % ", ".join(skipped))
+
+# ---------------------------------------------------------------------------------------------------------------
+# C28.6: directory clean-up between the start of close/abort and the release of the reservation
+#
+# The incoming directory of a storage index is shared by all of its shares that are being uploaded, so at the
+# moment one of them is closed or aborted it is normally NOT empty.  os.rmdir on a non-empty directory raises
+# OSError(ENOTEMPTY); if that happens before ss.bucket_writer_closed and nothing catches it, the reservation of
+# the closed/aborted upload is never released.
+RMDIR_CALLS = ("os.rmdir", "os.removedirs")
+CATCHES_OSERROR = {"OSError", "EnvironmentError", "IOError", "Exception", "BaseException"}
+
+
+def _empty_dir_facts(D):
+    """edge facts (normal forms) that establish that the directory D has no entries"""
+    L = "os.listdir(%s)" % D
+    n = "len(%s)" % L
+    return {("false", L, None), ("==", n, "0"), ("==", "0", n), ("<", n, "1"), ("<=", n, "0"),
+            ("==", L, "[]"), ("==", "[]", L)}
+
+
+def _may_release(ci):
+    """names of the methods of the writer class that (transitively, through self.m() calls) reach the release"""
+    methods = ci.methods
+
+    def self_method(c):
+        nm = call_name(c)
+        if nm and nm.startswith("self.") and nm.count(".") == 1:
+            return ci.lookup(nm[5:])
+        return None
+
+    def is_direct_release(n):
+        return any(call_name(c) == "self.ss.bucket_writer_closed" for c in node_calls(n))
+    out = set()
+    changed = True
+    while changed:
+        changed = False
+        for f in methods.values():
+            if f.name in out:
+                continue
+            for n in f.cfg().nodes:
+                if is_direct_release(n) or any(g is not None and g.name in out for g in map(self_method, node_calls(n))):
+                    out.add(f.name)
+                    changed = True
+                    break
+    return out, self_method, is_direct_release
+
+
+def check_rmdir_release(idx, ci, r):
+    methods = ci.methods
+    may_release, self_method, is_direct_release = _may_release(ci)
+    if not may_release:
+        raise AnchorVanished("no BucketWriter method calls self.ss.bucket_writer_closed any more")
+
+    def rmdirs(fnorm, n):
+        """[(call, {directories whose emptiness makes the call safe})] for the os.rmdir calls of the node"""
+        out = []
+        for c in node_calls(n):
+            if call_name(c) in RMDIR_CALLS:
+                d = arg(c, 0, "path") or arg(c, 0, "name")
+                if d is None:
+                    raise AnalysisError("os.rmdir() without a directory argument")
+                out.append((c, {fnorm.norm(n, d)}))
+        return out
+
+    def unguarded(g, cfg, fnorm, m, dirs, is_release):
+        """a path entry -> m on which none of `dirs` was tested to be empty and (is_release given) the
+        reservation was not yet released; None when there is none"""
+        gates = set()
+        for D in dirs:
+            gates |= _empty_dir_facts(D)
+
+        def transfer(n, lab, nxt, st):
+            if n.kind == "entry":
+                return st
+            if n.kind in ("exit", "raise"):
+                return None
+            if is_release is not None and lab != "exc" and is_release(n):
+                return None
+            if fnorm.edge_fact(n, lab) in gates:
+                return True
+            return st
+        visited, parent = explore(cfg, False, transfer)
+        r.count(len(visited))
+        if (m.id, False) in visited:
+            return witness(cfg, parent, (m.id, False))
+        return None
+
+    never = lambda _m: False
+    # helpers (not releasing themselves) out of which the OSError of an unguarded rmdir escapes
+    raising = {}
+    changed = True
+    while changed:
+        changed = False
+        for g in methods.values():
+            if g.name in raising or g.name in may_release:
+                continue
+            gcfg, gnorm, gpar = g.cfg(), FlowNorm(g), _parents(g)
+            for m in gcfg.nodes:
+                if m.kind in ("entry", "exit", "raise"):
+                    continue
+                hz = [d for (_c, d) in rmdirs(gnorm, m)]
+                for c in node_calls(m):
+                    k = self_method(c)
+                    if k is not None and k.name in raising:
+                        hz.append({gnorm.norm(m, a) for a in c.args})
+                if any(unguarded(g, gcfg, gnorm, m, d, None) is not None for d in hz) \
+                        and "raise" in _escape_outcomes(g, gcfg, gpar, m, never, CATCHES_OSERROR):
+                    raising[g.name] = m
+                    changed = True
+                    break
+
+    n_rel = 0
+    for g in sorted(methods.values(), key=lambda f: f.name):
+        if g.name not in may_release:
+            continue
+        gcfg, gnorm, gpar = g.cfg(), FlowNorm(g), _parents(g)
+
+        def is_release(m):
+            return is_direct_release(m) or any(k is not None and k.name in may_release
+                                               for k in map(self_method, node_calls(m)))
+        for m in gcfg.nodes:
+            if m.kind in ("entry", "exit", "raise"):
+                continue
+            if is_direct_release(m):
+                n_rel += 1
+                r.site(g, m.ast, "release in %s" % g.name)
+            if is_release(m):
+                continue
+            hz = [("os.rmdir(%s)" % src(g, arg(c, 0, "path") or arg(c, 0, "name")), c, d) for (c, d) in rmdirs(gnorm, m)]
+            for c in node_calls(m):
+                k = self_method(c)
+                if k is not None and k.name in raising:
+                    hz.append(("%s (whose os.rmdir is neither guarded nor caught)" % src(g, c), c,
+                               {gnorm.norm(m, a) for a in c.args}))
+            if not hz:
+                continue
+            # does a release follow this statement at all?  (clean-up after the release cannot hold it back)
+            reach, dq = {m.id}, [m.id]
+            while dq:
+                x = dq.pop()
+                for (d, l) in gcfg.succ[x]:
+                    if d not in reach:
+                        reach.add(d)
+                        dq.append(d)
+            if not any(is_release(gcfg.nodes[x]) for x in reach if x != m.id):
+                continue
+            for (what, c, dirs) in hz:
+                r.site(g, c, "directory removal before the release")
+                w = unguarded(g, gcfg, gnorm, m, dirs, is_release)
+                if w is None:
+                    continue
+                outs = _escape_outcomes(g, gcfg, gpar, m, is_release, CATCHES_OSERROR)
+                if not outs:
+                    continue
+                how = "the exception leaves %s" % short(g) if "raise" in outs else "%s returns" % short(g)
+                r.violation(g, g.loc(c), "%s calls %s before the reservation is released, on a path where the directory "
+                            "was not found empty (no passed test `not os.listdir(..)` of it) and with no handler for "
+                            "OSError: the incoming directory is shared with the other shares of the storage index that "
+                            "are still being uploaded, os.rmdir raises OSError(ENOTEMPTY) then, %s and "
+                            "ss.bucket_writer_closed is never reached - the upload's space stays counted in "
+                            "allocated_size() (path: %s)" % (short(g), what, how, w.brief()),
+                            outs.get("raise") or outs.get("exit") or w)
+    if not n_rel:
+        raise AnchorVanished("no direct call of self.ss.bucket_writer_closed found in the BucketWriter methods")
 
 
 def run(ctx: Context):
@@ -776,3 +952,9 @@ def run(ctx: Context):
                   "of that (already fired) DelayedCall before the release unless guarded by .active() or caught",
                   expected=2) as r:
         check_timer_release(idx, idx.cls(BW), r)
+
+    # ------------------------------------------------------------ 6. directory clean-up must not hold the release back
+    with ctx.rule("C28.6", "E3/E4", "close/abort: an os.rmdir of the (shared) incoming directories executed before "
+                  "ss.bucket_writer_closed is guarded by an emptiness test of that directory or its OSError is caught",
+                  expected=2) as r:
+        check_rmdir_release(idx, idx.cls(BW), r)
